@@ -86,11 +86,16 @@ Definition addr_of (w : bytes) : option endpoint :=
 Definition disabled (e : bytes) : bool :=
   match classify (first_word e) with WDisabled => true | _ => false end.
 
+(* A request is a SocksPort line: a port (first word only) or a whole line with option words.
+   Entry [e] is the one asked for when the request is that very line, byte for byte, or is exactly
+   its first word. *)
+Definition exact (r e : bytes) : bool := beqb r e || beqb r (first_word e).
+
 (* the endpoint of entry [e] if it is usable and is the one asked for *)
 Definition usable_for (want : option bytes) (e : bytes) : option endpoint :=
   let w := first_word e in
   match want with
-  | Some x => if beqb x w then addr_of w else None
+  | Some x => if exact x e then addr_of w else None
   | None => addr_of w
   end.
 
@@ -216,6 +221,17 @@ Definition may_refuse (o : op) : bool :=
   | _, _ => false
   end.
 
+(* TorConfig.socks_endpoint takes a port, not a line: a request with option words may be refused *)
+Definition port_only (o : op) : bool :=
+  match o_api o, o_want o with
+  | ACfgEndpoint, Some x => has_char SP x
+  | _, _ => false
+  end.
+
+(* When the request carries option words and no entry is that very line, an entry for the same
+   port with other options is neither required nor forbidden to be used: without a SETCONF the
+   outcome may be the endpoint of any usable entry with the request's first word; a SETCONF is
+   allowed exactly when no entry is the one asked for. *)
 Definition step_ok (t : tor) (o : op) (b : opobs) : bool :=
   let E := entries t in
   let U := usable_eps (o_want o) E in
@@ -223,8 +239,8 @@ Definition step_ok (t : tor) (o : op) (b : opobs) : bool :=
   match filter is_setconf (sent b) with
   | [] =>
       match out b with
-      | OEp e => existsb (ep_eqb e) U
-      | OErr _ => isnil U && may_refuse o
+      | OEp e => existsb (ep_eqb e) (usable_eps (option_map first_word (o_want o)) E)
+      | OErr _ => (isnil U && may_refuse o) || port_only o
       end
   | [s] =>
       isnil U &&
@@ -287,22 +303,24 @@ Definition usable (e : bytes) : bool :=
 (* C18-F4: a TorConfig call made after Tor refused a SETCONF of an earlier call *)
 Definition f4 (rej : bool) (o : op) : bool := is_cfg (o_api o) && rej.
 
-(* does a history touch the class (refusals are read off the observations, as the oracle reads Tor's state) *)
-Fixpoint flagged_from (t : tor) (rej : bool) (ops : list op) (obs : list opobs) : bool :=
+Definition in_class (rej : bool) (o : op) : bool := f4 rej o.
+
+(* does a history touch a class (refusals and Tor's state are read off the observations, as the oracle does) *)
+Fixpoint flag_from (t : tor) (rej : bool) (ops : list op) (obs : list opobs) : bool :=
   match ops, obs with
   | o :: ops', b :: obs' =>
-      f4 rej o || flagged_from (next_tor t o b) (rej || rejected o b) ops' obs'
+      in_class rej o || flag_from (next_tor t o b) (rej || rejected o b) ops' obs'
   | _, _ => false
   end.
 
-Definition flagged (t : tor) (ops : list op) (obs : list opobs) : bool := flagged_from t false ops obs.
+Definition flagged (t : tor) (ops : list op) (obs : list opobs) : bool := flag_from t false ops obs.
 
 (* every call satisfies its clauses, or is in the input class of the known finding *)
 Fixpoint oracle_known (t : tor) (rej : bool) (ops : list op) (obs : list opobs) : bool :=
   match ops, obs with
   | [], [] => true
   | o :: ops', b :: obs' =>
-      (step_ok t o b || f4 rej o)
+      (step_ok t o b || in_class rej o)
       && oracle_known (next_tor t o b) (rej || rejected o b) ops' obs'
   | _, _ => false
   end.
@@ -310,7 +328,8 @@ Fixpoint oracle_known (t : tor) (rej : bool) (ops : list op) (obs : list opobs) 
 (* ------------------------------------------------------------------ the envelope
    Lines as Tor reports them: printable ASCII, no leading or trailing blank, first word in one
    of Tor's forms (unix:path, port, address:port, or a word that is not a number at all such
-   as auto / [::1]:9050); numbers are canonical decimals up to 65535. *)
+   as auto / [::1]:9050); numbers are canonical decimals up to 65535.  A request is such a line too, with a
+   usable first word. *)
 Definition okchar (c : ascii) : bool := (32 <=? code c) && (code c <=? 126).
 Definition okwordchar (c : ascii) : bool :=
   (33 <=? code c) && (code c <=? 126) && negb (Ascii.eqb c DQ || Ascii.eqb c BSL || Ascii.eqb c SQ).
@@ -341,7 +360,7 @@ Definition okline (l : bytes) : bool := okline0 l && negb (beqb l DEFAULTW).
 
 Definition wf_op (o : op) : bool :=
   match o_want o with
-  | Some w => okword w && usable w && negb (has_char SP w)
+  | Some w => okline w && usable w
   | None => true
   end &&
   canonical_dec (o_avail o) && port_ok (digits_val (o_avail o)) &&
